@@ -35,6 +35,8 @@ struct U<'a> {
     policies: Vec<Address>, // mock policies
     threshold_policy: Address,
     verifier: Address,
+    /// a second mock verifier: signers 8..10 carry the SAME key bytes as signers 3 and 4 under it
+    verifier2: Address,
     ed_verifier: Address,
     ed_keys: Vec<ed25519_dalek::SigningKey>,
     targets: Vec<Address>,
@@ -112,6 +114,11 @@ fn history(cfg: &Cfg, rep: &mut Report, h: u64, rounds: usize) {
     for k in &ed_keys {
         signers.push(Signer::External(ed_verifier.clone(), Bytes::from_array(e, &k.verifying_key().to_bytes())));
     }
+    // aliases: equal key bytes under another verifier are different signers
+    let verifier2 = e.register(MockVerifier, ());
+    for i in 0..2u8 {
+        signers.push(Signer::External(verifier2.clone(), Bytes::from_array(e, &[i + 1; 8])));
+    }
     let policies: Vec<Address> = (0..3).map(|_| e.register(MockPolicy, ())).collect();
     let threshold_policy = e.register(ThresholdPolicyContract, ());
     let targets: Vec<Address> = (0..3).map(|_| e.register(CountTarget, ())).collect();
@@ -120,7 +127,7 @@ fn history(cfg: &Cfg, rep: &mut Report, h: u64, rounds: usize) {
     let init_signers: SVec<Signer> = SVec::from_array(e, [signers[0].clone()]);
     let no_pol: Map<Address, Val> = Map::new(e);
     let account = e.register(MultisigContract, (init_signers, no_pol));
-    let u = U { w: &w, account: account.clone(), signers, policies, threshold_policy, verifier, ed_verifier, ed_keys, targets, wasms };
+    let u = U { w: &w, account: account.clone(), signers, policies, threshold_policy, verifier, verifier2, ed_verifier, ed_keys, targets, wasms };
     rep.op(format!("deploy multisig account ledger={}", w.ledger()));
     // scripts of the mock policies: (policy index, rule id) -> bits
     let mut scripts: std::collections::BTreeMap<(usize, u32), u32> = Default::default();
@@ -305,7 +312,7 @@ fn history(cfg: &Cfg, rep: &mut Report, h: u64, rounds: usize) {
             for (i, s) in supplied.iter().enumerate() {
                 let bad = invalid_one == Some(i);
                 match s {
-                    Signer::External(v, key) if *v == u.verifier => {
+                    Signer::External(v, key) if *v == u.verifier || *v == u.verifier2 => {
                         let _ = key;
                         sigmap.set(s.clone(), Bytes::from_slice(e, if bad { b"no" } else { b"ok" }));
                         if bad {
@@ -500,7 +507,7 @@ fn end_to_end(cfg: &Cfg, rep: &mut Report, h: u64) {
 }
 
 pub fn run(cfg: &Cfg, rep: &mut Report) {
-    rep.rule = "Seeded histories on the real multisig-smart-account example: rule sets built by add/remove rule, add/remove signer, add/remove policy, update valid_until (3 call targets + the account itself, 2 wasm hashes, Default; 3 delegated + 3 mock-verified + 2 real-ed25519 signers; 3 scriptable logging policies + the real threshold-policy example); after each batch of edits 6 probes of the real __check_auth with 1-3 contexts (contract call, create contract with/without constructor) and supplied signer sets {a rule's signers, all but one, superset, disjoint, random}, one signature invalid in 1/8, delegated signers by mock or exact authorization entries; ledger moved to valid_until / +1. Plus end-to-end execute() calls through the host with hand-built entries. Distinct case = (#rules, #contexts, supplied-signer class, all valid?, per-context matched-rule kind, outcome).".into();
+    rep.rule = "Seeded histories on the real multisig-smart-account example: rule sets built by add/remove rule, add/remove signer, add/remove policy, update valid_until (3 call targets + the account itself, 2 wasm hashes, Default; 3 delegated + 3 mock-verified + 2 real-ed25519 signers + 2 aliases (the key bytes of two mock-verified signers under a second verifier); 3 scriptable logging policies + the real threshold-policy example); after each batch of edits 6 probes of the real __check_auth with 1-3 contexts (contract call, create contract with/without constructor) and supplied signer sets {a rule's signers, all but one, superset, disjoint, random}, one signature invalid in 1/8, delegated signers by mock or exact authorization entries; ledger moved to valid_until / +1. Plus end-to-end execute() calls through the host with hand-built entries. Distinct case = (#rules, #contexts, supplied-signer class, all valid?, per-context matched-rule kind, outcome).".into();
     let nh = cfg.pick(30u64, 300);
     let rounds = cfg.pick(30usize, 60);
     for k in 0..nh {
